@@ -249,7 +249,28 @@ def equal_std(a, b):
             return False
         if isinstance(a, collections.OrderedDict) and list(a) != list(b):
             return False
-        return set(a) == set(b) and all(equal_std(a[k], b[k]) for k in a)
+        # keys may be objects that hash by identity (exceptions, partials): match them structurally
+        if len(a) != len(b):
+            return False
+        rest = list(b.items())
+        for k, x in a.items():
+            for i, (k2, x2) in enumerate(rest):
+                if equal_std(k, k2) and equal_std(x, x2):
+                    del rest[i]
+                    break
+            else:
+                return False
+        return True
+    if isinstance(a, (set, frozenset)):
+        rest = list(b)
+        for x in a:
+            for i, y in enumerate(rest):
+                if equal_std(x, y):
+                    del rest[i]
+                    break
+            else:
+                return False
+        return not rest
     if isinstance(a, types.SimpleNamespace):
         return equal_std(vars(a), vars(b))
     if isinstance(a, datetime.datetime):
@@ -367,8 +388,16 @@ def main(tier):
         known_reported = []
         for i in range(n):
             v = gen_std(r)
-            if r.random() < 0.3:
+            x = r.random()
+            if x < 0.3:
                 v = r.choice([[v, 1], {'key': v}, (v,), {'a' * 30: [v, v]}])
+            elif x < 0.45:
+                # "every nesting position" includes dict keys and set elements (for the hashable ones)
+                try:
+                    hash(v)
+                    v = r.choice([{v: 1}, {v: 'x', 1: 2}, {(v, 1): [2]}, {v}, frozenset([v]), {'k': {v: None}}])
+                except TypeError:
+                    pass
             cfg = dict(width=r.choice([1, 20, 40, 79, 200]), indent=r.choice([2, 4]))
             if r.random() < 0.2:
                 cfg['ribbon_width'] = r.choice([10, 200])
